@@ -665,3 +665,28 @@ package header
 //@   ensures be32(b, 4) == seqnum && be32(b, 8) == acknum && b[13] == flags && be16(b, 14) == rcvwnd
 //@   ensures oc16(uint64(^be16(b, 16))) == oc16(uint64(partialChecksum) + uint64(length) + uint64(flags) + wsum16(b, 4, 12) + wsum16(b, 14, 16))
 //@   modifies elems(b[4:12]), b[13], b[14], b[15], b[16], b[17]
+
+// ---------------------------------------------------------------------------
+// C15 (SYN options round trip, fixed layouts): the option strings the stack's own encoder
+// produces - in its order and with its padding - are read back by ParseSynOptions with every
+// field recovered, for all field values. Bounded: three layouts, not every option string.
+//@ func verifSynSackOnly props C15
+//@   bounded the 8-byte layout MSS, NOP, NOP, SACK-permitted (all field values)
+//@   inline_callee ParseSynOptions
+//@   unroll_calls * 8
+//@   ensures implies(m1 != 0 || m2 != 0, result.SACKPermitted && !result.TS && result.WS == -1)
+//@   ensures implies(m1 != 0 || m2 != 0, result.MSS == uint16(m1) << 8 | uint16(m2))
+
+//@ func verifSynSackWS props C15
+//@   bounded the 12-byte layout MSS, NOP, NOP, SACK-permitted, NOP, window scale (all field values)
+//@   inline_callee ParseSynOptions
+//@   unroll_calls * 10
+//@   ensures implies(m1 != 0 || m2 != 0, result.SACKPermitted && !result.TS && result.WS == imin(int(ws), MaxWndScale) && result.MSS == uint16(m1) << 8 | uint16(m2))
+
+//@ func verifSynAll props C15
+//@   bounded the 20-byte layout MSS, SACK-permitted, timestamp, NOP, window scale (all field values)
+//@   inline_callee ParseSynOptions
+//@   unroll_calls * 10
+//@   ensures implies(m1 != 0 || m2 != 0, result.SACKPermitted && result.TS && result.WS == imin(int(ws), MaxWndScale) && result.MSS == uint16(m1) << 8 | uint16(m2))
+//@   ensures implies(m1 != 0 || m2 != 0, result.TSVal == uint32(t1) << 24 | uint32(t2) << 16 | uint32(t3) << 8 | uint32(t4))
+//@   ensures implies((m1 != 0 || m2 != 0) && isAck, result.TSEcr == uint32(e1) << 24 | uint32(e2) << 16 | uint32(e3) << 8 | uint32(e4))
